@@ -508,4 +508,106 @@ theorem stepO_translate_fields (D : Defaults) (s : HState) (e : Nat) (q : Query)
     simp [specsOfRun, mdOf]
     split <;> rename_i h1 <;> simp [h1]
 
+theorem lt_length_of_getElem? {α} (l : List α) (e : Nat) (x : α) (h : l[e]? = some x) : e < l.length := by
+  rcases Nat.lt_or_ge e l.length with h' | h'
+  · exact h'
+  · rw [List.getElem?_eq_none h'] at h; cases h
+
+theorem effXmd_congr (s s' : HState) (ex ex' : Exec) (h1 : s'.sharedXmd = s.sharedXmd)
+    (h2 : ex'.xmdShared = ex.xmdShared) (h3 : ex'.xmdOwn = ex.xmdOwn) : effXmd s' ex' = effXmd s ex := by
+  unfold effXmd; rw [h1, h2, h3]
+
+theorem execAfter_xmd (ex : Exec) (st : Stage) (sp : List Spec) (h : st ≠ .done) :
+    (execAfter ex st sp).xmdShared = ex.xmdShared ∧ (execAfter ex st sp).xmdOwn = ex.xmdOwn := by
+  cases st <;> first | exact ⟨rfl, rfl⟩ | exact absurd rfl h
+
+theorem execAfter_job (ex : Exec) (st : Stage) (sp : List Spec) :
+    (execAfter ex st sp).job = match st with
+      | .transform => ex.job | .finder => ex.job | .write => ex.job ++ jobsOf sp | .done => [] := by
+  cases st <;> rfl
+
+theorem stepO_length (D : Defaults) (s : HState) (o : OpO) :
+    (stepO D s o).execs.length = s.execs.length + (match o with | .new _ => 1 | _ => 0) := by
+  cases o with
+  | new b => simp [stepO, newExec]
+  | addXmd e x =>
+    simp only [stepO, addXmd]
+    cases he : s.execs[e]? with
+    | none => simp
+    | some ex => by_cases hs : ex.xmdShared = true <;> simp [hs]
+  | translate e q md r =>
+    cases he : s.execs[e]? with
+    | none => rw [stepO_translate_noExec D s e q md r he]; simp
+    | some ex =>
+      obtain ⟨_, _, _, fe⟩ := stepO_translate_fields D s e q md r ex he
+      rw [fe]
+      cases reachedStage s ex md r <;> simp
+
+/-! ### the oracle accepts identical observations -/
+
+/-- a renaming that renames nothing -/
+def IdMap (m : List (String × String)) : Prop := ∀ e ∈ m, e.1 = e.2
+
+theorem stepMap_refl (m : List (String × String)) (a : String) (h : IdMap m) :
+    ∃ m', stepMap m a a = some m' ∧ IdMap m' := by
+  unfold stepMap
+  by_cases hn : (numbered a && numbered a) = true
+  · simp only [hn, if_true]
+    cases hf : m.find? (fun e => e.1 == a) with
+    | some e =>
+      have hmem : e ∈ m := List.mem_of_find?_eq_some hf
+      have h1 : e.1 = a := by simpa using List.find?_some hf
+      have h2 : e.2 = a := by rw [← h e hmem]; exact h1
+      simp only [h2, beq_self_eq_true, if_true]
+      exact ⟨m, rfl, h⟩
+    | none =>
+      cases hg : m.find? (fun e => e.2 == a) with
+      | some e' =>
+        have hmem : e' ∈ m := List.mem_of_find?_eq_some hg
+        have h2 : e'.2 = a := by simpa using List.find?_some hg
+        have h1 : e'.1 = a := by rw [h e' hmem]; exact h2
+        have := List.find?_eq_none.1 hf e' hmem
+        simp [h1] at this
+      | none =>
+        simp only [beq_self_eq_true, if_true]
+        refine ⟨_, rfl, ?_⟩
+        intro e he
+        rcases List.mem_cons.1 he with h' | h'
+        · rw [h']
+        · exact h e h'
+  · simp only [hn, beq_self_eq_true, if_true]
+    exact ⟨m, by simp, h⟩
+
+theorem agreeTokens_refl (ts : List String) : ∀ m, IdMap m → ∃ m', agreeTokens ts ts m = some m' ∧ IdMap m' := by
+  induction ts with
+  | nil => intro m h; exact ⟨m, rfl, h⟩
+  | cons a t ih =>
+    intro m h
+    obtain ⟨m1, e1, h1⟩ := stepMap_refl m a h
+    obtain ⟨m2, e2, h2⟩ := ih m1 h1
+    exact ⟨m2, by simp only [agreeTokens, e1, e2], h2⟩
+
+theorem agreeLines_refl (ls : List String) : ∀ m, IdMap m → ∃ m', agreeLines ls ls m = some m' ∧ IdMap m' := by
+  induction ls with
+  | nil => intro m h; exact ⟨m, rfl, h⟩
+  | cons a t ih =>
+    intro m h
+    unfold agreeLines
+    by_cases hd : (a == a && !hasDigit a) = true
+    · simp only [hd, if_true]; exact ih m h
+    · simp only [hd]
+      obtain ⟨m1, e1, h1⟩ := agreeTokens_refl (tokens a) m h
+      obtain ⟨m2, e2, h2⟩ := ih m1 h1
+      exact ⟨m2, by simp only [e1, e2]; simp, h2⟩
+
+theorem agreeFiles_refl (fs : List FileObs) : ∀ m, IdMap m → ∃ m', agreeFiles fs fs m = some m' ∧ IdMap m' := by
+  induction fs with
+  | nil => intro m h; exact ⟨m, rfl, h⟩
+  | cons f t ih =>
+    intro m h
+    obtain ⟨n, l⟩ := f
+    obtain ⟨m1, e1, h1⟩ := agreeLines_refl l m h
+    obtain ⟨m2, e2, h2⟩ := ih m1 h1
+    exact ⟨m2, by simp only [agreeFiles, beq_self_eq_true, if_true, e1, e2], h2⟩
+
 end FaxVerif.C07
